@@ -159,11 +159,15 @@ func runC19(r *mc.Run) {
 	}
 	r.Explore("tool-invocations", bound, func(c *mc.Ctx) {
 		enc := c.Free("config-encoding", 2)
-		var cfgS, flagS [14]int
+		var cfgS, flagS, flagMeaning [14]int
 		for i, f := range fields {
 			cfgS[i] = c.Choose("cfg."+f.name, 4)
 			if !f.cfgOnly {
-				flagS[i] = c.Choose("flag."+f.name, 4)
+				n := 4
+				if f.svn {
+					n = 4 + len(c19SvnSpellings) // further spellings of a number
+				}
+				flagS[i] = c.Choose("flag."+f.name, n)
 			}
 		}
 		shape := c.Choose("config-shape", len(cfgShapes))
@@ -244,6 +248,11 @@ func runC19(r *mc.Run) {
 				switch {
 				case f.svn:
 					val = map[int]string{1: fmt.Sprint(svnVal), 2: fmt.Sprint(svnVal + 1), 3: "seven"}[flagState]
+					if flagState >= 4 {
+						sp := c19SvnSpellings[flagState-4]
+						val = sp.text(svnVal)
+						flagState = sp.state // what this spelling means: 1 matching, 2 mismatching, 3 malformed
+					}
 				case f.rtmr:
 					var hs []string
 					for k := 0; k < 4; k++ {
@@ -272,6 +281,7 @@ func runC19(r *mc.Run) {
 			// effective verdict of this field
 			eff := cfgState
 			overridden := false
+			flagMeaning[i] = flagState
 			if flagState != 0 {
 				if cfgState == 3 {
 					overridden = true
@@ -385,7 +395,7 @@ func runC19(r *mc.Run) {
 			effCrl, effGc = effBool(0, crlFlag), effBool(0, gcFlag)
 			delete(allowed, 4)
 			for i := range fields {
-				if flagS[i] == 2 {
+				if flagMeaning[i] == 2 {
 					allowed[4] = true
 				}
 			}
@@ -457,6 +467,30 @@ func runC19(r *mc.Run) {
 
 	// library half: typed errors for fetch failures
 	c19TypedErrors(r)
+}
+
+// c19SvnSpellings: other ways to write a minimum on the command line. The tool reads decimal unless the
+// value carries a 0x / 0o / 0b prefix; a leading zero does not mean octal and underscores are not digits.
+var c19SvnSpellings = []struct {
+	name  string
+	state int
+	text  func(v uint32) string
+}{
+	{"hex-equal", 1, func(v uint32) string { return fmt.Sprintf("0x%x", v) }},
+	{"HEX-equal", 1, func(v uint32) string { return fmt.Sprintf("0X%X", v) }},
+	{"octal-prefix-equal", 1, func(v uint32) string { return fmt.Sprintf("0o%o", v) }},
+	{"binary-equal", 1, func(v uint32) string { return fmt.Sprintf("0b%b", v) }},
+	{"leading-zero-equal", 1, func(v uint32) string { return fmt.Sprintf("0%d", v) }},
+	{"leading-zeros-8", 1, func(v uint32) string { return "08" }},
+	// decimal 0777 = 777 is above the quote's SVN (515 / 260), read as octal it would be 511: not above 515
+	{"leading-zero-above", 2, func(v uint32) string { return "0777" }},
+	{"hex-above", 2, func(v uint32) string { return fmt.Sprintf("0x%x", v+1) }},
+	{"underscore", 3, func(v uint32) string { s := fmt.Sprint(v); return s[:1] + "_" + s[1:] }},
+	{"trailing-garbage", 3, func(v uint32) string { return fmt.Sprint(v) + "x" }},
+	{"negative", 3, func(v uint32) string { return "-1" }},
+	{"plus-sign", 3, func(v uint32) string { return "+" + fmt.Sprint(v) }},
+	{"too-big-for-32-bits", 3, func(v uint32) string { return "4294967296" }},
+	{"above-16-bits", 3, func(v uint32) string { return "65536" }},
 }
 
 func wfSeq(dir, id, ext string, b []byte) string {
